@@ -43,6 +43,8 @@ type fsModel struct {
 	root   *fsInode
 	ops    int
 	gen    int // bumped at every crash: handles from before are dead
+	// vfs.MemFS.SetIgnoreSyncs: while set, nothing becomes durable
+	ignoreSyncs bool
 }
 
 type fsHandle struct {
@@ -195,6 +197,9 @@ func (p *Path) fsFile(f *fsModel, n *fsInode, name string) Value {
 		}},
 		"Sync": {Name: "File.Sync", F: func(p *Path, g *Goroutine, a []Value) Value {
 			dead(p)
+			if f.ignoreSyncs {
+				return Iface{}
+			}
 			if n.dir {
 				n.durEnts = copyEnts(n.ents)
 			} else {
@@ -300,6 +305,9 @@ func (p *Path) fsOpenPebble(fsv Value, dir string) (*pDB, Value) {
 }
 
 func (p *Path) fsPebbleFlushed(db *pDB) {
+	if db.fs != nil && db.fs.ignoreSyncs {
+		return
+	}
 	if db.ino != nil {
 		db.ino.dbDur = db.ents
 	}
@@ -413,7 +421,10 @@ func init() {
 		fsArg(p, a[0]).crash()
 		return nil
 	})
-	regNoop(M + "SetIgnoreSyncs")
+	reg(M+"SetIgnoreSyncs", func(p *Path, _ *frame, a []Value) Value {
+		fsArg(p, a[0]).ignoreSyncs = p.branch(p.boolArg(a[1]))
+		return nil
+	})
 	reg(M+"PathDir", func(p *Path, _ *frame, a []Value) Value {
 		name, _ := p.concreteString(a[1])
 		return path.Dir(name)
